@@ -24,7 +24,7 @@ EXTENDS Rat, Naturals, FiniteSets, TLC, Json
 
 CONSTANTS LayoutCodes, \* input layouts of single components, as decimal codes: 12 = a variable of size 1 and one of size 2
           ChainLayoutCodes,  \* the same for chains
-          MaxM,        \* maximal number of scalar outputs of a component (1..3)
+          DenseMs,     \* numbers of scalar outputs of the dense single components (subset of 1..3)
           StepCfgs,    \* {100*e1 + e2}: step 2^-e1, minimum_step 2^-e2   (component partials)
           ChainCfgs,   \* the same for chains (approx_totals has no minimum_step argument: no floor may trigger)
           Families,    \* subset of {"dense", "sparse", "chainA", "chainB", "chainS"}
@@ -213,7 +213,7 @@ Candidates(b) ==
     LET n == SeqSum(b.lay) IN
     CASE b.fam = "dense" ->
             {[b EXCEPT !.c1 = DenseComp(n, m, q), !.x = Point(b.lay, k, FALSE), !.pt = k] :
-                m \in 1..MaxM, q \in Seeds(n), k \in 1..3}
+                m \in DenseMs, q \in Seeds(n), k \in 1..3}
       [] b.fam = "sparse" ->
             {[b EXCEPT !.c1 = SparseComp(sg[1], sg[2]), !.x = Point(b.lay, k, FALSE), !.pt = k] :
                 sg \in {<<Len(g), g>> : g \in SparsePats(n)}, k \in 1..3}
@@ -266,9 +266,8 @@ TruncationLaw == stage = 2 =>
             IN /\ jf[r][i] = Add(d1[r][i], half)
                /\ jb[r][i] = Sub(d1[r][i], half)
                /\ jc[r][i] = d1[r][i]
-CsExact == stage = 2 => LET d1 == D1(scen) IN
-                        /\ JOf("cs", "none") = d1
-                        /\ \A i \in Cols : LET nj == Numer(scen, "forward", i) IN \A r \in Rows : nj[r][2] = d1[r][i]
+\* (with TruncationLaw for the central form this also ties the symbolic derivative to the t-coefficient of the jets)
+CsExact == stage = 2 => JOf("cs", "none") = D1(scen)
 
 \* plain rational evaluation of the scheme at the step 1/8 agrees with the jet arithmetic
 EvalAt(s, xx) == LET y == SysJ(s, [j \in 1..N(s) |-> JConst(xx[j])]) IN [r \in 1..M(s) |-> y[r][1]]
